@@ -504,15 +504,22 @@ func wired(r *vkit.R) {
 			w.log = append(w.log, fmt.Sprintf("MOVE alias %s: %s -> %s", a, from, to))
 			w.lock.Unlock()
 			r.Count("wired_alias_moves", 1)
-			// replay what was just used on that alias
-			for _, q := range used {
-				if normHostW(q.Host) == a {
-					w.send(q, true)
+			replay := func() {
+				// replay what was just used on that alias
+				for _, q := range used {
+					if normHostW(q.Host) == a {
+						w.send(q, true)
+					}
+				}
+				for _, t := range toks {
+					w.send(wreq{Host: a, Token: t}, true)
+					w.send(wreq{Host: a, Token: t, Impersonate: "admin"}, true)
 				}
 			}
-			for _, t := range toks {
-				w.send(wreq{Host: a, Token: t}, true)
-				w.send(wreq{Host: a, Token: t, Impersonate: "admin"}, true)
+			// either the name is used on its new owner first, or the outage comes before anything was asked there
+			outageFirst := g.Bool()
+			if !outageFirst {
+				replay()
 			}
 			// the new owner loses its only ready endpoint: requests for its names cannot be reviewed, so they are not
 			// authenticated / denied - not decided by anybody else; after recovery the same credentials are decided by it
@@ -536,6 +543,9 @@ func wired(r *vkit.R) {
 			w.lock.Unlock()
 			for _, q := range outage {
 				w.send(q, true)
+			}
+			if outageFirst {
+				replay()
 			}
 		}
 		for _, s := range w.stubs {
